@@ -422,13 +422,28 @@ def _toposort(dsk, keys=None, returncycle=False, dependencies=None):
                         # Begin with the node that was seen twice and the node `prev` from
                         # which we detected the cycle.
                         cycle = [nodes.pop()]
-                        cycle.append(prev)
-                        while prev != cycle[0]:
-                            # Greedily take a step that takes us closest to completing the cycle.
-                            # This may not give us the shortest cycle, but we get *a* short cycle.
-                            deps = dependents[cycle[-1]]
-                            prev = min(deps, key=priorities.__getitem__)
-                            cycle.append(prev)
+                        # Search breadth-first along dependents from `prev` back to the
+                        # node that was seen twice (earlier-seen nodes first).  A greedy
+                        # walk can bounce between nodes that are in play but not on the
+                        # cycle and never terminate.
+                        parents = {prev: None}
+                        frontier = [prev]
+                        while cycle[0] not in parents:
+                            new_frontier = []
+                            for node in frontier:
+                                for dep in sorted(
+                                    dependents[node], key=priorities.__getitem__
+                                ):
+                                    if dep not in parents:
+                                        parents[dep] = node
+                                        new_frontier.append(dep)
+                            frontier = new_frontier
+                        path = []
+                        node = cycle[0]
+                        while node is not None:
+                            path.append(node)
+                            node = parents[node]
+                        cycle.extend(reversed(path))
                         cycle.reverse()
 
                         if returncycle:
